@@ -19,6 +19,14 @@ Driver for C08.  `T` is `u` (std::size_t instantiation, components ≥ 0) or `s`
 * `map d k a b`               map (x ↦ a*x+b)
 * `apply d1 k1 d2 k2 [d3 k3]` apply (a, bs ↦ fold (acc*1009 + b))
 * `fill d v k`                mkc d v, then fill with enc k
+* `out d k`                   operator<< of the grid
+* `interp d k fl q`           interpolate at the position fl + q/4 (0 ≤ fl_i, fl_i + 1 < d_i, q_i ∈ 0..3), interpolator
+                              `ip f a b = (4f+1)*1000003 + 7a + 13b`; `interps d k`: digest over all such fl, q
+* `rows w h k`                static_row constructor (N = 2), 1 ≤ w, h ≤ 4
+* `regs d0 k0 d1 k1 d2 k2 P`  three objects, `P` = special-member calls `xxDS` joined by `.` (`-` = none): `cc` copy ctor,
+                              `mc` move ctor, `dcD` default ctor, `ca` copy assign, `ma` move assign, `sm` member swap, `sf` free swap; D, S slot digits
+* `cmp d1 c1 d2 c2`           `== != < > <= >=` of the grids with sizes d1, d2 and cell lists c1, c2 (`-` = no cell)
+* `fillself d k mode`         fill whose function reads the grid itself: first / last / previous / next / current cell, + 7
 * `clamp d p`                 clamped_min p, clamped_sup_signed p d, clamped_sup (clamped_min p) d
 * `clamps d m`                digest of `clamp` over all p with -m ≤ p_i ≤ d_i + m
 * `refsub d k smin ssup`      pos_ref_range(grid, clamped_min smin, clamped_sup_signed ssup d)
@@ -54,10 +62,13 @@ def tuples (lo hi : List Int) : List Pos := box lo hi
 def digest (lines : List String) : String :=
   "D " ++ hex64 (lines.foldl fnv fnvInit)
 
-def offLine (d p : List Int) : String :=
-  s!"off={offset p d} in={b01 (inRangeDim d p)} cont={contents d}"
+/-- `u`: `std::size_t` arithmetic (modulo 2^64); `s`: `long`, exercised without overflow only -/
+def offLine (t : String) (d p : List Int) : String :=
+  if t == "u" then s!"off={offsetW 64 p d} in={b01 (inRangeDim d p)} cont={contentsW 64 d}"
+  else s!"off={offset p d} in={b01 (inRangeDim d p)} cont={contents d}"
 
-def nextLine (cur mn sp : Pos) : String := s!"next={il (next cur mn sp)}"
+/-- the single-step op runs the literal fold (`nextFold`); the iterator loop of `posRange` runs `next` -/
+def nextLine (cur mn sp : Pos) : String := s!"next={il (nextFold cur mn sp)}"
 
 def rangeLine (mn sp : Pos) : String :=
   let hd := s!"mls={b01 (minLessSup mn sp)} dim={il (rangeDim mn sp)} size={rangeSize mn sp} end={il (endPos mn sp)}"
@@ -75,11 +86,78 @@ def refsubLine (d : List Int) (k : Int) (smin ssup : Pos) : String :=
     let mn := clampedMin smin
     exc (clampedSupSigned ssup d) fun sp =>
       exc (g.posRefRange mn sp) fun l =>
-        s!"mn={il mn} sp={il sp} size={rangeSize mn sp} n={l.length} ref={refStr l}"
+        exc (g.fillRange mn sp (enc 5)) fun g2 =>
+          s!"mn={il mn} sp={il sp} size={rangeSize mn sp} n={l.length} ref={refStr l} w={il g2.cells}"
 
 def clampLine (d : List Int) (p : Pos) : String :=
   exc (clampedSupSigned p d) fun css =>
     s!"cmin={il (clampedMin p)} csups={il css} csup={il (clampedSup (clampedMin p) d)}"
+
+/-- `rows w h k`: the static_row constructor with `h` rows of `w` cells, row `y` = `enc k (0,y) … enc k (w-1,y)` -/
+def rowsLine (w h : Nat) (k : Int) : String :=
+  let row (y : Nat) : List Int := (List.range w).map fun (x : Nat) => enc k [(x : Int), (y : Int)]
+  match (List.range h).map row with
+  | [] => "bad-op"
+  | r1 :: rs => gridStr (Grid.mkRows r1 rs)
+
+def parseRegOp (s : String) : Option RegOp :=
+  let dig (ch : Char) : Option Nat := if '0' ≤ ch ∧ ch ≤ '9' then some (ch.toNat - 48) else none
+  match s.toList with
+  | ['d', 'c', c] => (dig c).map RegOp.defaultCtor
+  | [a, b, c, d] =>
+    match dig c, dig d with
+    | some i, some j =>
+      if a == 'c' && b == 'c' then some (.copyCtor i j)
+      else if a == 'm' && b == 'c' then some (.moveCtor i j)
+      else if a == 'c' && b == 'a' then some (.copyAssign i j)
+      else if a == 'm' && b == 'a' then some (.moveAssign i j)
+      else if a == 's' && b == 'm' then some (.swapMember i j)
+      else if a == 's' && b == 'f' then some (.swapFree i j)
+      else none
+    | _, _ => none
+  | _ => none
+
+def parseProg (s : String) : Option (List RegOp) :=
+  if s == "-" then some [] else (s.splitOn ".").mapM parseRegOp
+
+def slotStr (x : Slot Int) : String :=
+  if x.moved then s!"moved size={il x.g.size}" else gridStr x.g
+
+/-- `regs d0 k0 d1 k1 d2 k2 prog`: three objects, a history of special-member calls, then all three printed -/
+def regsLine (n : Nat) (dks : List (List Int × Int)) (prog : List RegOp) : String :=
+  exc (dks.mapM fun dk => mkGrid dk.1 dk.2) fun gs =>
+    match regRun n (gs.map fun g => ⟨g, false⟩) prog with
+    | none => "bad-op"
+    | some st => " ; ".intercalate (st.map slotStr)
+
+/-- `cmp d1 c1 d2 c2`: the six comparison operators on the grids with the given sizes and cells -/
+def cmpLine (a b : Grid Int) : String :=
+  exc (a.eq b) fun e => exc (a.ne b) fun n =>
+    s!"eq={b01 e} ne={b01 n} lt={b01 (a.lt b)} gt={b01 (a.gt b)} le={b01 (a.le b)} ge={b01 (a.ge b)}"
+
+def interpIp (q a b : Int) : Int := (q + 1) * 1000003 + 7 * a + 13 * b
+
+def interpLine (g : Grid Int) (fl q : List Int) : String :=
+  exc (g.interpolate fl q interpIp) fun r => s!"ip={r}"
+
+def interpOk (d fl q : List Int) : Bool :=
+  (List.zip d (List.zip fl q)).all fun x => 0 ≤ x.2.1 && x.2.1 + 1 < x.1 && 0 ≤ x.2.2 && x.2.2 ≤ 3
+
+/-- `fillself d k mode`: fill with a function that returns one of the grid's own cells + 7, read at call time:
+    mode 0 the first cell, 1 the last cell, 2 the cell before the current one in storage order (the first: itself),
+    3 the cell after it (the last: itself), 4 the current cell -/
+def fillSelfLine (d : List Int) (k : Int) (mode : Nat) : String :=
+  exc (mkGrid d k) fun g =>
+    let b := box (zeros d) d
+    let src (p : Pos) : Pos :=
+      let i := b.idxOf p
+      match mode with
+      | 0 => zeros d
+      | 1 => d.map (· - 1)
+      | 2 => (b[i - 1]?).getD p
+      | 3 => (b[i + 1]?).getD p
+      | _ => p
+    exc (g.fillDep fun g' p => (· + 7) <$> g'.getUnsafe (src p)) gridStr
 
 def applyF (a : Int) (bs : List Int) : Int := bs.foldl (fun acc b => acc * 1009 + b) a
 
@@ -100,14 +178,14 @@ def handle (toks : List String) : String :=
   match toks with
   | ["off", t, d, p] =>
     match L d, L p with
-    | some d, some p => if okDims [d, p] && okT t [d, p] then offLine d p else "bad-op"
+    | some d, some p => if okDims [d, p] && okT t [d, p] then offLine t d p else "bad-op"
     | _, _ => "bad-op"
   | ["offs", t, d, m] =>
     match L d, I m with
     | some d, some m =>
       if okDims [d] && okT t [d] && 0 ≤ m && (t == "u" || t == "s") then
         let lo := d.map fun _ => if t == "u" then 0 else -m
-        digest ((tuples lo (d.map (· + m))).map (offLine d))
+        digest ((tuples lo (d.map (· + m))).map (offLine t d))
       else "bad-op"
     | _, _ => "bad-op"
   | ["next", t, c, mn, sp] =>
@@ -198,6 +276,46 @@ def handle (toks : List String) : String :=
     match L d, I v, I k with
     | some d, some v, some k =>
       if okDims [d] && nonneg d then exc ((Grid.mkConst d v).fill (enc k)) gridStr else "bad-op"
+    | _, _, _ => "bad-op"
+  | ["out", d, k] =>
+    match L d, I k with
+    | some d, some k =>
+      if okDims [d] && nonneg d then exc (mkGrid d k) fun g => exc (g.output toString) fun o => s!"out={o}" else "bad-op"
+    | _, _ => "bad-op"
+  | ["interp", d, k, fl, q] =>
+    match L d, I k, L fl, L q with
+    | some d, some k, some fl, some q =>
+      if okDims [d, fl, q] && nonneg d && interpOk d fl q then exc (mkGrid d k) fun g => interpLine g fl q else "bad-op"
+    | _, _, _, _ => "bad-op"
+  | ["interps", d, k] =>
+    match L d, I k with
+    | some d, some k =>
+      if okDims [d] && d.all (2 ≤ ·) then
+        exc (mkGrid d k) fun g =>
+          digest ((tuples (zeros d) (d.map (· - 1))).flatMap fun fl =>
+            (tuples (zeros d) (d.map fun _ => 4)).map fun q => interpLine g fl q)
+      else "bad-op"
+    | _, _ => "bad-op"
+  | ["rows", w, h, k] =>
+    match String.toNat? w, String.toNat? h, I k with
+    | some w, some h, some k => if 1 ≤ w && w ≤ 4 && 1 ≤ h && h ≤ 4 then rowsLine w h k else "bad-op"
+    | _, _, _ => "bad-op"
+  | ["regs", d0, k0, d1, k1, d2, k2, prog] =>
+    match L d0, I k0, L d1, I k1, L d2, I k2, parseProg prog with
+    | some d0, some k0, some d1, some k1, some d2, some k2, some prog =>
+      if okDims [d0, d1, d2] && nonneg d0 && nonneg d1 && nonneg d2 then regsLine d0.length [(d0, k0), (d1, k1), (d2, k2)] prog
+      else "bad-op"
+    | _, _, _, _, _, _, _ => "bad-op"
+  | ["cmp", d1, c1, d2, c2] =>
+    match L d1, L c1, L d2, L c2 with
+    | some d1, some c1, some d2, some c2 =>
+      if okDims [d1, d2] && nonneg d1 && nonneg d2 && (c1.length : Int) == contents d1 && (c2.length : Int) == contents d2 then
+        cmpLine ⟨d1, c1⟩ ⟨d2, c2⟩
+      else "bad-op"
+    | _, _, _, _ => "bad-op"
+  | ["fillself", d, k, mode] =>
+    match L d, I k, String.toNat? mode with
+    | some d, some k, some mode => if okDims [d] && nonneg d && mode ≤ 4 then fillSelfLine d k mode else "bad-op"
     | _, _, _ => "bad-op"
   | ["clamp", d, p] =>
     match L d, L p with
